@@ -34,6 +34,21 @@ fn usage() -> ExitCode {
 
 fn main() -> ExitCode {
     common::install_silent_panic_hook();
+    // a panic of the harness itself is a harness error (exit 2), never a crash with another code
+    match common::catch(real_main) {
+        Ok(code) => code,
+        Err(common::Caught::Panic(msg)) => {
+            eprintln!("vsim: HARNESS ERROR: internal panic: {msg}");
+            ExitCode::from(2)
+        }
+        Err(common::Caught::NoProgress) => {
+            eprintln!("vsim: HARNESS ERROR: step budget unwound out of the harness");
+            ExitCode::from(2)
+        }
+    }
+}
+
+fn real_main() -> ExitCode {
     let args: Vec<String> = std::env::args().collect();
     match args.get(1).map(|s| s.as_str()) {
         Some("run") if args.len() >= 4 => report::cmd_run(&args[2], &args[3]),
